@@ -67,7 +67,7 @@ SelectFails(s, fin, disp) ==
 StdinFails(s, fin) ==
   LET m == IF Has(fin, "stdout_matches") THEN SeqToSet(fin.stdout_matches) ELSE {} IN
   (IF fin.exit # s.expect.exit THEN {"exit"} ELSE {}) \cup
-  (CASE s.expect.stdout = "fmt"   -> IF (IF s.c.pathcase = "cfgdir" THEN "fmt_cfgdir" ELSE "fmt") \notin m THEN {"stdout_not_formatted_text"} ELSE {}
+  (CASE s.expect.stdout = "fmt"   -> IF (IF s.c.pathcase = "cfgdir" THEN "fmt_cfgdir" ELSE IF s.c.pathcase = "ecdir" THEN "fmt_ecdir" ELSE "fmt") \notin m THEN {"stdout_not_formatted_text"} ELSE {}
      [] s.expect.stdout = "input" -> IF "input" \notin m THEN {"stdout_not_passthrough"} ELSE {}
      \* (the summary format always prints a header and a footer: there "empty" means that no file is listed)
      [] s.expect.stdout = "empty" -> IF (IF s.c.mode = "check_summary" THEN fin.n_diffs # 0 ELSE fin.stdout_len # 0) THEN {"stdout_not_empty"} ELSE {}
